@@ -19,7 +19,9 @@ RULE = ("Hypothesis rule-based state machine generates histories (up to 40 steps
         "executed by a pure function (also used for replay). Oracle: first-seen SHA-1 digest per (function, preset, seed, spelling) over all "
         "result arrays/scalars (+ final generator state, + objective call counts) must be reproduced bit-for-bit at every re-occurrence; the legacy "
         "global generator state is byte-identical before/after every library call. Non-trivial = a history in which the same key occurs at least "
-        "twice with a state-changing step in between; distinct by SHA-1 of the history.")
+        "twice with a state-changing step in between; distinct by SHA-1 of the history. Sub-check order_swap: for every catalogue entry two data "
+        "sets x 4 (8) argument variants are run in the orders A..B.., B..A.., interleaved and descending, each history in a child forked from the same state: "
+        "every call must give the same digest in all four (state kept between calls and keyed on part of the arguments shows up as order dependence).")
 TOLERANCES = "exact (SHA-1 of bytes)"
 ASSUMPTIONS = ["single-threaded BLAS (OMP/OPENBLAS/MKL_NUM_THREADS=1) so that LAPACK results are bit-reproducible",
                "int and Generator spellings of the same seed are NOT required to agree (sample_tt and sample_square's retry re-seed from an int)",
@@ -376,9 +378,86 @@ def enum_default_pairs(tier, shard, nshards):
                 j += 1
 
 
+# ------------------------------------------------------------------------------------------- order independence (forked)
+
+def _digest_calls(calls):
+    out = []
+    for (op, bseed, v) in calls:
+        c = ac.build(op, bseed, v)
+        if c.seed_kw is not None:
+            c.kwargs[c.seed_kw] = 0
+        try:
+            res = c.run()
+            out.append(digest_of(res, {k: x for k, x in c.kwargs.items() if k in ("info",)}))
+        except Exception as e:  # noqa: BLE001 - a deterministic exception is a deterministic result
+            out.append("raised:" + type(e).__name__ + ":" + str(e)[:80])
+    return out
+
+
+def _in_fork(calls):
+    """Run the calls in a forked child of the current process state and return their digests (None if the child died)."""
+    import os, json
+    r, w = os.pipe()
+    pid = os.fork()
+    if pid == 0:
+        code = 0
+        try:
+            os.close(r)
+            data = json.dumps(_digest_calls(calls)).encode()
+            with os.fdopen(w, "wb") as f:
+                f.write(data)
+        except BaseException:  # noqa: BLE001
+            code = 3
+        finally:
+            os._exit(code)
+    os.close(w)
+    with os.fdopen(r, "rb") as f:
+        data = f.read()
+    _, status = os.waitpid(pid, 0)
+    if status != 0 or not data:
+        return None
+    return json.loads(data.decode())
+
+
+def prop_order(case, ctx):
+    """State that a routine keeps between calls (module-level or default-argument caches keyed on part of the arguments) makes a result
+    depend on WHICH OTHER data the routine saw before.  Two data sets A, B (different builder seeds, same sizes) x variants: the calls are
+    executed in the orders A..B.., B..A.., interleaved and all descending, each in its own child forked from the same parent state; every call must give
+    the same digest in all three histories."""
+    op, (sa, sb), nv = case["op"], case["bs"], case["nv"]
+    A = [(op, sa, v) for v in range(nv)]
+    B = [(op, sb, v) for v in range(nv)]
+    inter = [x for pair in zip(B, A) for x in pair]
+    orders = {"A_then_B": A + B, "B_then_A": B + A, "interleaved": inter, "variants_descending": (A + B)[::-1]}
+    res = {}
+    for name, calls in orders.items():
+        d = _in_fork(calls)
+        if d is None:
+            raise RuntimeError(f"forked history {name} of {op} died")
+        res[name] = dict(zip(calls, d))
+    ctx.label("op:" + op)
+    ctx.nontrivial(True)
+    for call in A + B:
+        ds = {name: r[call] for name, r in res.items()}
+        ctx.check(len(set(ds.values())) == 1, f"{op}: the result of a call depends on which other data the routine was called with before",
+                  call=list(call), digests=ds)
+        ctx.inner(1)
+
+
+def enum_order(tier, shard, nshards):
+    j = 0
+    pairs = [(300, 301)] if tier == "quick" else [(300, 301), (302, 303), (304, 300)]
+    for op in ac.OPS:
+        for bs in pairs:
+            if j % nshards == shard:
+                yield {"op": op, "bs": list(bs), "nv": 4 if tier == "quick" else 8}
+            j += 1
+
+
 SUBCHECKS = [
     Sub("neighbours", prop_history, enumerate=enum_neighbours, exhaustive=True),
     Sub("default_dict_pairs", prop_history, enumerate=enum_default_pairs, exhaustive=True),
     Sub("histories", prop_history, custom=custom),
     Sub("sweep", prop_history, enumerate=enum_sweep, exhaustive=True),
+    Sub("order_swap", prop_order, enumerate=enum_order, exhaustive=True),
 ]
